@@ -33,7 +33,7 @@ type propSpec struct {
 }
 
 var props = map[string]propSpec{
-	"C01": {"C01", []string{"genmap", "genselect", "rnd-gen"}, "", nil},
+	"C01": {"C01", []string{"genmap", "genselect", "gensep", "rnd-gen"}, "", nil},
 	"C02": {"C02", []string{"genmap", "rnd-gen"}, "", nil},
 	"C03": {"C03", []string{"empty", "rnd-empty"}, "", nil},
 	"C04": {"C04", []string{"empty", "rnd-empty"}, "", nil},
